@@ -141,6 +141,29 @@ pub fn run(out_path: &str, tier: &str) {
 		let names: Vec<Value> = crate::keydrv::ALL_ALGS.iter().filter_map(|n| alg_static(n).map(|a| json!({"alg": n, "debug": format!("{:?}", a)}))).collect();
 		out.event("MiscApi", "api-misc/0", json!({}), "Ok", "", json!({"remoteIsRemote": remote, "localIsNotRemote": local, "algDebug": names}));
 	}
+	// what needs a digest implementation: the automatic serial number and the key identifier of an imported CA without SKI
+	if let Ok(k) = live_key("n", "ed25519", "remote", &mut rng) {
+		let mut p = CertificateParams::default();
+		p.key_identifier_method = KeyIdMethod::PreSpecified(vec![1, 2]);
+		p.serial_number = None;
+		let (o1, e1) = match guarded(|| p.clone().self_signed(&k.kp)) {
+			Outcome::Ok(c) => ("Ok".to_string(), format!("{}", crate::project::artefact("cert", c.der(), &k.info.spki)["serial"])),
+			Outcome::Err(e) => ("Err".to_string(), e),
+			Outcome::Panic(m) => ("Panic".to_string(), m),
+		};
+		// a CA certificate without subject key identifier, made by OpenSSL
+		let d = json!({"dn": [{"ty": "2.5.4.3", "kind": "utf8", "val": hex(b"no ski")}], "ski": false, "pathlen": {"k": "none", "n": 0}, "ku": [5, 6], "sans": [], "serial": [9],
+			"nb": {"y": 2020, "mo": 1, "d": 1, "h": 0, "mi": 0, "s": 0}, "na": {"y": 2030, "mo": 1, "d": 1, "h": 0, "mi": 0, "s": 0}});
+		let (o2, e2) = match crate::importdrv::openssl_ca(&d, &k.info) {
+			Ok(der) => match guarded(|| CertificateParams::from_ca_cert_der(&pki_types::CertificateDer::from(der))) {
+				Outcome::Ok(q) => ("Ok".to_string(), params_view(&q)["kid"]["k"].as_str().unwrap_or("").to_string()),
+				Outcome::Err(e) => ("Err".to_string(), e),
+				Outcome::Panic(m) => ("Panic".to_string(), m),
+			},
+			Err(e) => ("Skip".to_string(), e),
+		};
+		out.event("NeedsDigest", "api-digest/0", json!({}), "Ok", "", json!({"autoSerial": {"out": o1, "detail": e1}, "importWithoutSki": {"out": o2, "detail": e2}}));
+	}
 	// conversions into pki-types
 	if let Ok(k) = live_key("c", "ed25519", "remote", &mut rng) {
 		let mut d = base_params_desc();
